@@ -828,6 +828,37 @@ func substVars(t *Term, m map[string]*Term) *Term {
 	return rec(t)
 }
 
+// substTerm replaces every occurrence of the subterm old (by identity) with repl.
+func substTerm(t *Term, old *Term, repl *Term) *Term {
+	memo := map[int]*Term{}
+	var rec func(t *Term) *Term
+	rec = func(t *Term) *Term {
+		if t.id == old.id {
+			return repl
+		}
+		if r, ok := memo[t.id]; ok {
+			return r
+		}
+		r := t
+		if t.Op != "const" && t.Op != "var" && len(t.Args) > 0 {
+			args := make([]*Term, len(t.Args))
+			ch := false
+			for i, a := range t.Args {
+				args[i] = rec(a)
+				if args[i] != a {
+					ch = true
+				}
+			}
+			if ch {
+				r = rebuild(t, args)
+			}
+		}
+		memo[t.id] = r
+		return r
+	}
+	return rec(t)
+}
+
 func rebuild(t *Term, a []*Term) *Term {
 	switch t.Op {
 	case "app":
